@@ -58,7 +58,7 @@ NormalizeOk(ev) ==
        /\ DyIsPos(VDot(r, v))
 
 \* ---- angle between (nearly) parallel vectors -------------------------------------------------------
-AngleTol(ev) == IF ev.f = 32 THEN DyPow2(-10) ELSE DyPow2(-22)
+AngleTol(ev) == IF ev.f = 32 THEN DyPow2(-9) ELSE DyPow2(-21)       \* about 5 sqrt(epsilon): the conditioning of arccos at 0 and pi
 AngleParallelOk(ev) ==
     LET p == P(ev) a == DV(ev.a) b == DV(ev.b) IN
     /\ DyLe(Lagrange(a, b), DyMul(DyPow2(10 - 2 * p), DyMul(VSq(a), VSq(b))))                    \* the recorded operands ARE parallel within 32 u
